@@ -102,9 +102,16 @@ def default_container_case(rng, counters, violations):
     accessed by attribute and by item, must survive the round trip like any other container."""
     import xdeps
     m = xdeps.Manager()
-    r = m.ref(label="r")
+    # Manager.ref() and Manager.refattr() (attribute access translated to item access) over the default container
+    how_root = rng.choice(["ref", "refattr", "refattr-dict"])
+    if how_root == "ref":
+        r = m.ref(label="r")
+    elif how_root == "refattr":
+        r = m.refattr(label="r")
+    else:
+        r = m.refattr({}, "r")
     names = ["a", "b", "c", "d", "e"]
-    log = []
+    log = [["root", how_root]]
 
     def step(root, kind, nm, val):
         if kind == "attr":
@@ -114,7 +121,7 @@ def default_container_case(rng, counters, violations):
 
     def state(root):
         d = root._owner
-        return sorted((k, canon(v)) for k, v in d.items()), sorted((k, canon(getattr(d, k))) for k in d)
+        return sorted((k, canon(v)) for k, v in d.items()), sorted((k, canon(getattr(d, k, d[k]))) for k in d)
 
     ops = []
     for i, nm in enumerate(names):
@@ -138,6 +145,10 @@ def default_container_case(rng, counters, violations):
         return
     r2 = m2.containers["r"]
     counters["default_container_cases"] = counters.get("default_container_cases", 0) + 1
+    counters["default_container_" + how_root] = counters.get("default_container_" + how_root, 0) + 1
+    if type(r2) is not type(r):
+        violations.append({"what": "C12 default container: the container reference is a %s, restored as a %s" % (type(r).__name__, type(r2).__name__), "ops": log})
+        return
     if state(r) != state(r2):
         violations.append({"what": "C12 default container: contents differ right after restore", "ops": log})
         return
